@@ -1564,11 +1564,21 @@ impl St {
                             let n = spec.n;
                             let mut wrong = 0usize;
                             if n > 0 && spec.dd.is_empty() {
+                                // `count` indices spread over the WHOLE of 0..n (k n / count plus a
+                                // jitter), followed by the first and the last 1100 indices (more
+                                // than one 1024-record chunk of the offline store)
                                 let stride = Ord::max(n / Ord::max(count, 1), 1);
-                                let mut i = 0usize;
+                                let edge = Ord::min(1100, n);
+                                let total = count + 2 * edge;
                                 let mut k = 0usize;
-                                while k < count {
-                                    let idx = (i + k % stride) % n;
+                                while k < total {
+                                    let idx = if k < count {
+                                        Ord::min(n - 1, ((k as u128 * n as u128) / count as u128) as usize + k % stride)
+                                    } else if k < count + edge {
+                                        k - count
+                                    } else {
+                                        n - 1 - (k - count - edge)
+                                    };
                                     let sig = inst.sig(KQ::Member(idx));
                                     let exp = self.expected(idx, sig);
                                     if inst.get(KQ::Member(idx)) != exp {
@@ -1584,7 +1594,6 @@ impl St {
                                     {
                                         wrong += 1;
                                     }
-                                    i += stride;
                                     k += 1;
                                 }
                             }
